@@ -30,17 +30,47 @@ theorem inv_step (sch : Schema) (s : State) (op : Op) (h : Inv sch s) : Inv sch 
 theorem inv_reachable (sch : Schema) (ops : List Op) : Inv sch (run sch ops) :=
   run_inv_from sch ops init (inv_init sch)
 
-/-- a relate that does not return ok (RelateException: a single-valued end would get a second partner;
-    UnknownLinkException: unknown association number, kinds or phrase) leaves the model exactly as it was -/
+/-- a relate that does not return ok (RelateException: a single-valued end would get a second partner, or one of the two
+    instances is not in its pool - deleted; UnknownLinkException: unknown association number, kinds or phrase) leaves
+    the model exactly as it was -/
 theorem relate_reject_atomic (sch : Schema) (s : State) (h : Inv sch s) (x y : Inst) (r p : String)
     (hr : (relate sch s x y r p).2 ≠ .ok) : (relate sch s x y r p).1 = s := Pyx.Meta.relate_reject_atomic h hr
 
-/-- on the resolved association a relate is rejected exactly when the pair is not yet related and one of
-    the two single-valued ends is already occupied -/
+/-- when is a relate rejected with RelateException: on the resolved association, for two LIVE instances, exactly when
+    the pair is not yet related and one of the two single-valued ends is already occupied; and as a whole
+    (`relate sch s x y r p`, association `i` found in direction `d`) exactly when one of the two instances is not in its
+    pool (deleted: a deleted instance must not become reachable again) or the pair is refused in that sense -/
 theorem relate_rejected_iff (a : AssocSpec) (l : ALinks) (x y : Inst) (hsym : Sym l) :
-    (relateOn a l x y).2 = .relateExc ↔
-      (y ∉ l.src x ∧ ((l.src x ≠ [] ∧ a.srcMany = false) ∨ (l.tgt y ≠ [] ∧ a.tgtMany = false))) :=
-  relateOn_reject_iff hsym
+    ((relateOn a l x y).2 = .relateExc ↔
+      (y ∉ l.src x ∧ ((l.src x ≠ [] ∧ a.srcMany = false) ∨ (l.tgt y ≠ [] ∧ a.tgtMany = false)))) ∧
+    (∀ (sch : Schema) (s : State) (i1 i2 : Inst) (r p : String) (i : Nat) (d : Dir),
+      findLink sch (s.kindOf i1) (s.kindOf i2) r p = some (i, d) →
+      ((relate sch s i1 i2 r p).2 = .relateExc ↔
+        (¬ (live s i1 ∧ live s i2) ∨
+         (relateOn (specAt sch i) (s.links i) (orient d i1 i2).1 (orient d i1 i2).2).2 = .relateExc))) := by
+  refine ⟨relateOn_reject_iff hsym, ?_⟩
+  intro sch s i1 i2 r p i d hf
+  unfold relate
+  simp only [hf]
+  by_cases hl : live s i1 ∧ live s i2
+  · simp [hl]
+  · simp [hl]
+
+/-- **use after delete is rejected**: a relate with an argument that is not in the instance pool of its class (deleted,
+    or never created) raises — UnknownLinkException when no association matches, as before, RelateException otherwise
+    — and changes nothing -/
+theorem relate_on_deleted_rejected (sch : Schema) (s : State) (x y : Inst) (r p : String)
+    (h : ¬ (live s x ∧ live s y)) :
+    (relate sch s x y r p).1 = s ∧
+    ((findLink sch (s.kindOf x) (s.kindOf y) r p).isSome = true → relate sch s x y r p = (s, .relateExc)) ∧
+    (findLink sch (s.kindOf x) (s.kindOf y) r p = none → relate sch s x y r p = (s, .unknownLink)) := by
+  refine ⟨(relate_not_live_fst h r p).1, fun hs => ?_, fun hn => ?_⟩
+  · rcases relate_of_not_live (sch := sch) h r p with ⟨hn, _⟩ | ⟨_, h'⟩
+    · rw [hn] at hs; cases hs
+    · exact h'
+  · rcases relate_of_not_live (sch := sch) h r p with ⟨_, h'⟩ | ⟨hs, _⟩
+    · exact h'
+    · rw [hn] at hs; cases hs
 
 /-- an unrelate that does not return ok (UnrelateException: pair not linked; UnknownLinkException)
     leaves the model exactly as it was; it is rejected exactly when the pair is not linked -/
@@ -69,8 +99,8 @@ theorem find_link_sound (sch : Schema) (k1 k2 : Kind) (r p : String) (i : Nat) (
 /-- relating an already related pair is a no-op returning ok -/
 theorem relate_idempotent (sch : Schema) (s : State) (h : Inv sch s) (x y : Inst) (r p : String) (i : Nat) (d : Dir)
     (hf : findLink sch (s.kindOf x) (s.kindOf y) r p = some (i, d))
-    (hrel : (orient d x y).2 ∈ (s.links i).src (orient d x y).1) :
-    relate sch s x y r p = (s, .ok) := Pyx.Meta.relate_idempotent h hf hrel
+    (hrel : (orient d x y).2 ∈ (s.links i).src (orient d x y).1) (hx : live s x) (hy : live s y) :
+    relate sch s x y r p = (s, .ok) := Pyx.Meta.relate_idempotent h hf hrel hx hy
 
 /-- a successful unrelate exactly undoes a successful relate of a previously unrelated pair -/
 theorem unrelate_undoes_relate (sch : Schema) (s s' : State) (h : Inv sch s) (x y : Inst) (r p : String)
@@ -88,12 +118,12 @@ theorem delete_twice_rejected (sch : Schema) (ops : List Op) (x : Inst) :
     delete sch (delete sch (run sch ops) x).1 x = ((delete sch (run sch ops) x).1, .deleteExc) :=
   Pyx.Meta.delete_twice_rejected (run_poolInv_from sch ops init poolInv_init) x
 
-/-- only live instances are reachable: preserved by creation, by relate of live instances (accepted or
-    rejected) and by unrelate -/
+/-- only live instances are reachable: preserved by creation, by relate of ANY two instances (accepted or
+    rejected; a relate with an instance that is not live is rejected) and by unrelate -/
 theorem live_only_new (s : State) (hp : PoolInv s) (hl : LiveOnly s) (k : Kind) (hid : Bool) :
     LiveOnly (new s k hid).1 := new_liveOnly hp hl k hid
-theorem live_only_relate (sch : Schema) (s : State) (hl : LiveOnly s) (x y : Inst) (r p : String)
-    (hx : live s x) (hy : live s y) : LiveOnly (relate sch s x y r p).1 := relate_liveOnly hl hx hy
+theorem live_only_relate (sch : Schema) (s : State) (hl : LiveOnly s) (x y : Inst) (r p : String) :
+    LiveOnly (relate sch s x y r p).1 := relate_liveOnly hl
 theorem live_only_unrelate (sch : Schema) (s : State) (hl : LiveOnly s) (x y : Inst) (r p : String) :
     LiveOnly (unrelate sch s x y r p).1 := unrelate_liveOnly hl x y r p
 
@@ -104,16 +134,15 @@ theorem live_only_delete (sch : Schema) (s : State) (hok : SchemaOk sch) (h : In
     (hl : LiveOnly s) (hp : PoolInv s) (x : Inst) (hx : live s x) :
     (delete sch s x).2 = .ok ∧ LiveOnly (delete sch s x).1 := delete_liveOnly hok h ht hl hp hx
 
-/-- every state reachable by ANY history in the statement's domain (relate applied to live instances;
-    everything else unrestricted, incl. rejected calls and repeated deletes) satisfies all invariants at
-    once: symmetric, duplicate-free, bounded navigation; well-typed links; only live instances reachable;
-    duplicate-free pools -/
-theorem all_invariants_reachable (sch : Schema) (hok : SchemaOk sch) (ops : List Op) (hd : Dom sch init ops) :
-    AllInv sch (run sch ops) := run_allInv_from hok ops init (allInv_init sch) hd
+/-- every state reachable by ANY history whatsoever (any operations on any arguments: relates of deleted instances,
+    rejected calls, repeated deletes, …) satisfies all invariants at once: symmetric, duplicate-free, bounded
+    navigation; well-typed links; only live instances reachable; duplicate-free pools -/
+theorem all_invariants_reachable (sch : Schema) (hok : SchemaOk sch) (ops : List Op) :
+    AllInv sch (run sch ops) := run_allInv_any hok ops init (allInv_init sch)
 
-theorem live_only_reachable (sch : Schema) (hok : SchemaOk sch) (ops : List Op) (hd : Dom sch init ops) :
+theorem live_only_reachable (sch : Schema) (hok : SchemaOk sch) (ops : List Op) :
     ∀ i x y, y ∈ ((run sch ops).links i).src x → live (run sch ops) x ∧ live (run sch ops) y :=
-  (all_invariants_reachable sch hok ops hd).liveOnly
+  (all_invariants_reachable sch hok ops).liveOnly
 
 /-- the hypothesis `SchemaOk` of the delete / liveness theorems holds for every association shape the property names
     (1:1, 1:M, M:1 unconditional, reflexive with phrases, association class with two formalisations, subtype /
@@ -189,15 +218,16 @@ example : ((run sch11 hist).links 0).tgt 0 = [1] ∧ ((run sch11 hist).links 0).
     (unrelate sch11 (run sch11 hist) 0 2 "R1" "").2 = .unrelateExc ∧
     (relate sch11 (run sch11 hist) 0 2 "R9" "").2 = .unknownLink ∧
     live (run sch11 hist) 0 ∧ ¬ live (delete sch11 (run sch11 hist) 0).1 0 := by decide
-/-- the 1:1 schema is `SchemaOk` and the history lies in the domain, so `all_invariants_reachable` applies -/
-example : SchemaOk sch11 ∧ Dom sch11 init hist := by
-  refine ⟨?_, ?_⟩
-  · intro i a h
+/-- the 1:1 schema is `SchemaOk`, so `all_invariants_reachable` applies — here to a history that USES AN INSTANCE
+    AFTER ITS DELETE (the relate is rejected, everything reachable stays live) -/
+example : SchemaOk sch11 ∧
+    AllInv sch11 (run sch11 (hist ++ [.delete 0, .relate 0 1 "R1" "", .new 0 true, .relate 3 1 "R1" ""])) := by
+  have hok : SchemaOk sch11 := by
+    intro i a h
     match i, h with
     | 0, h => simp [sch11] at h; subst h; decide
     | i + 1, h => simp [sch11] at h
-  · simp only [hist, Dom, OpOk, and_true, true_and]
-    decide
+  exact ⟨hok, all_invariants_reachable sch11 hok _⟩
 
 end PyxProps.C02
 
@@ -233,11 +263,14 @@ theorem relate_steps_as_in_source (a : AssocSpec) (l : ALinks) (x y fromI toI : 
     unrelateOn l x y = iSteps linkDefs a { inst1 := x, inst2 := y, fromI := fromI, toI := toI } unrelateProg.steps l :=
   ⟨relateOn_eq a l x y fromI toI, unrelateOn_eq a l x y fromI toI⟩
 
-/-- `relate` and `unrelate` as wholes: `_find_link` on the arguments the source passes, orientation of the pair,
-    the guarded calls on the association found, the exception when no association matches -/
+/-- `relate` and `unrelate` as wholes: `_find_link` on the arguments the source passes, orientation of the pair, the
+    guards `for inst in (inst1, inst2): if inst in get_metaclass(inst).deleted: raise RelateException` of relate (none
+    in unrelate; `deleted` is filled by the `self.deleted.add(instance)` of `MetaClass.delete`, whose body the
+    interpretation consults: without that statement the guard would never fire and this equation would fail), the
+    guarded calls on the association found, the exception when no association matches -/
 theorem relate_as_in_source (sch : Schema) (s : State) (i1 i2 : Inst) (rel phrase : String) :
-    relate sch s i1 i2 rel phrase = iPair linkDefs findBody findElse relateProg sch s i1 i2 rel phrase ∧
-    unrelate sch s i1 i2 rel phrase = iPair linkDefs findBody findElse unrelateProg sch s i1 i2 rel phrase :=
+    relate sch s i1 i2 rel phrase = iPair linkDefs findBody findElse deleteBody relateProg sch s i1 i2 rel phrase ∧
+    unrelate sch s i1 i2 rel phrase = iPair linkDefs findBody findElse deleteBody unrelateProg sch s i1 i2 rel phrase :=
   ⟨relate_eq sch s i1 i2 rel phrase, unrelate_eq sch s i1 i2 rel phrase⟩
 
 /-- `metaclass.links.values()`: the model's link order of a class is the order in which `define_association`
@@ -245,12 +278,14 @@ theorem relate_as_in_source (sch : Schema) (s : State) (i1 i2 : Inst) (rel phras
 theorem links_of_as_in_source (sch : Schema) (k : Kind) : linksOf sch k = iLinksOfFrom linkDefs k 0 sch :=
   linksOfFrom_eq k sch 0
 
-/-- `MetaClass.delete` (and `delete`, which forwards to it): storage test, removal and exception, then for every
+/-- `MetaClass.delete` (and `delete`, which forwards to it): storage test, removal (the removed instance is added to
+    `self.deleted`: `marksDeleted deleteBody = true`, which `relate`'s guard relies on) and exception, then for every
     link of the class in `links` order the unrelate of every partner, with the argument order of the source; the
     `unrelate` it calls is the interpreted one -/
 theorem delete_as_in_source (sch : Schema) (s : State) (x : Inst) :
-    delete sch s x = iDelete linkDefs (iPair linkDefs findBody findElse unrelateProg sch) sch x true deleteBody s :=
-  delete_eq sch s x
+    delete sch s x = iDelete linkDefs (iPair linkDefs findBody findElse deleteBody unrelateProg sch) sch x true deleteBody s ∧
+    Pyx.Shape.marksDeleted deleteBody = true :=
+  ⟨delete_eq sch s x, rfl⟩
 
 /-- `MetaClass.new`, as far as C02's model goes (allocation, storage, generated id): the phases read from the
     source; the instance is appended to the storage BEFORE the defaults are computed (so a constructor that raises
@@ -277,24 +312,34 @@ theorem referential_read_as_in_source (sch : Schema) (at_ : Attrs) (s : State) (
 
 /-! non-vacuity: the interpreter is not a renaming of the model — it runs the generated IR on the 1:1 schema above
     and produces the link, the rejection with undo, the unknown-link exception and the delete -/
-example : ((iPair linkDefs findBody findElse relateProg sch11 (run sch11 [.new 0 true, .new 1 true, .new 1 true]) 0 1 "R1" "").1.links 0).tgt 0 = [1] ∧
-    (iPair linkDefs findBody findElse relateProg sch11 (run sch11 hist) 0 2 "R1" "").2 = .relateExc ∧
-    ((iPair linkDefs findBody findElse relateProg sch11 (run sch11 hist) 0 2 "R1" "").1.links 0).src 2 = [] ∧
-    (iPair linkDefs findBody findElse relateProg sch11 (run sch11 hist) 0 2 "R9" "").2 = .unknownLink ∧
+example : ((iPair linkDefs findBody findElse deleteBody relateProg sch11 (run sch11 [.new 0 true, .new 1 true, .new 1 true]) 0 1 "R1" "").1.links 0).tgt 0 = [1] ∧
+    (iPair linkDefs findBody findElse deleteBody relateProg sch11 (run sch11 hist) 0 2 "R1" "").2 = .relateExc ∧
+    ((iPair linkDefs findBody findElse deleteBody relateProg sch11 (run sch11 hist) 0 2 "R1" "").1.links 0).src 2 = [] ∧
+    (iPair linkDefs findBody findElse deleteBody relateProg sch11 (run sch11 hist) 0 2 "R9" "").2 = .unknownLink ∧
     iFindFrom linkDefs findBody 1 0 "R1" "" 0 sch11 = some (0, false) ∧
     iFindFrom linkDefs findBody 0 1 "R1" "" 0 sch11 = some (0, true) ∧
-    ((iDelete linkDefs (iPair linkDefs findBody findElse unrelateProg sch11) sch11 0 true deleteBody (run sch11 hist)).1.links 0).src 1 = [] ∧
-    (iDelete linkDefs (iPair linkDefs findBody findElse unrelateProg sch11) sch11 0 true deleteBody
-      (iDelete linkDefs (iPair linkDefs findBody findElse unrelateProg sch11) sch11 0 true deleteBody (run sch11 hist)).1).2 = .deleteExc := by
+    ((iDelete linkDefs (iPair linkDefs findBody findElse deleteBody unrelateProg sch11) sch11 0 true deleteBody (run sch11 hist)).1.links 0).src 1 = [] ∧
+    (iDelete linkDefs (iPair linkDefs findBody findElse deleteBody unrelateProg sch11) sch11 0 true deleteBody
+      (iDelete linkDefs (iPair linkDefs findBody findElse deleteBody unrelateProg sch11) sch11 0 true deleteBody (run sch11 hist)).1).2 = .deleteExc := by
+  decide
+/-- use after delete: `a = new A; b = new B; delete(a); relate(a, b, R1)` is rejected with RelateException by the model
+    AND by the interpreted source, nothing is linked; with a body of `MetaClass.delete` that does not add to `deleted`
+    the interpreted guard would not fire (the relate would be accepted) -/
+example : (relate sch11 (run sch11 [.new 0 true, .new 1 true, .delete 0]) 0 1 "R1" "").2 = .relateExc ∧
+    (iPair linkDefs findBody findElse deleteBody relateProg sch11 (run sch11 [.new 0 true, .new 1 true, .delete 0]) 0 1 "R1" "").2 = .relateExc ∧
+    ((relate sch11 (run sch11 [.new 0 true, .new 1 true, .delete 0]) 0 1 "R1" "").1.links 0).tgt 0 = [] ∧
+    (iPair linkDefs findBody findElse [.removeFromStorageElseRaise .deleteExc false] relateProg sch11
+      (run sch11 [.new 0 true, .new 1 true, .delete 0]) 0 1 "R1" "").2 = .ok := by
   decide
 /-- a different IR gives a different function: with the two connects of relate swapped (and no undo), a relate that is
     refused on the source link would leave a half link behind — the equality theorems really depend on the
     generated program -/
 def swappedRelate : PairProg :=
   { findArgs := relateProg.findArgs,
+    guards := relateProg.guards,
     steps := [ { call := { link := .targetLink, op := .connect, a1 := .inst2, a2 := .inst1 }, undo := [], raises := .relateExc },
                { call := { link := .sourceLink, op := .connect, a1 := .inst1, a2 := .inst2 }, undo := [], raises := .relateExc } ] }
-example : ((iPair linkDefs findBody findElse swappedRelate sch11 (run sch11 (hist ++ [.new 0 true])) 3 1 "R1" "").1.links 0).tgt 3 = [1] ∧
+example : ((iPair linkDefs findBody findElse deleteBody swappedRelate sch11 (run sch11 (hist ++ [.new 0 true])) 3 1 "R1" "").1.links 0).tgt 3 = [1] ∧
     ((relate sch11 (run sch11 (hist ++ [.new 0 true])) 3 1 "R1" "").1.links 0).tgt 3 = [] := by
   decide
 
